@@ -80,6 +80,9 @@ class RadialClamp(ClampBase):
     ):
         position = np.array(position)
         initial_point = np.copy(position)
+        # own copies: the position function must not follow later changes of the caller's arrays
+        center = np.array(center)
+        normal = np.array(normal)
 
         if bounds is not None:
             clamp_bounds = [bounds]
